@@ -35,7 +35,8 @@ func (e *xmlEncoder) PrintDocumentSeparator(_ io.Writer) error {
 }
 
 func (e *xmlEncoder) PrintLeadingContent(_ io.Writer, content string) error {
-	e.leadingContent = content
+	// the YAML decoder marks a leading document separator in the leading content: it is not a comment
+	e.leadingContent = strings.ReplaceAll(content, "$yqDocSeparator$\n", "")
 	return nil
 }
 
